@@ -14,3 +14,6 @@ HARNESSES = [
 ]
 ASSUMPTIONS = ["stream model: bufio.Reader.Read = one underlying read of arbitrary size; binary.Read / io.ReadFull by contract (exactly n bytes or EOF / ErrUnexpectedEOF)"]
 EXPLANATION = ""
+CLAIMED = True
+LEVEL_TEXT = "Bounded model checking of the real NTS-KE record reader ReadData against a reference parser written by cases in the harness, for every byte stream up to the tier bound and every segmentation of it into reads (position-indexed symbolic chunk sizes): success exactly for properly terminated streams without error record or unrecognised critical record, non-critical unknown records ignored, cookies exactly the cookie records in order, algorithm / port / server from their records."
+LEVEL_NOTE = "streams of <= 12 (quick) / 24 bytes (<= 3 / 6 records); stream model: bufio.Reader.Read = one underlying read of arbitrary size, binary.Read / io.ReadFull by contract; NOT built: Fetcher.exchangeKeys / FetchData (ALPN, algorithm and cookie checks, exporter arguments, failure-leaves-no-state - hand-confirmed finding F7 stays open), the NTS-KE server message, address selection for the following NTP request."
